@@ -101,4 +101,9 @@ theorem text_TraefikOidc_buildURLWithParams_ok : Oidc.Shapes.Text_TraefikOidc_bu
 theorem text_BuildLogoutURL_ok : Oidc.Shapes.Text_BuildLogoutURL := by unfold Oidc.Shapes.Text_BuildLogoutURL; rfl
 theorem text_New_ok : Oidc.Shapes.Text_New := by unfold Oidc.Shapes.Text_New; rfl
 
+
+/-! ## Program text of the helpers these theorems also rest on (constructors, accessors, token endpoint, configuration) -/
+theorem text_Config_Validate_ok : Oidc.Shapes.Text_Config_Validate := by unfold Oidc.Shapes.Text_Config_Validate; rfl
+theorem text_isValidSecureURL_ok : Oidc.Shapes.Text_isValidSecureURL := by unfold Oidc.Shapes.Text_isValidSecureURL; rfl
+
 end Oidc.Props.C15
